@@ -131,6 +131,8 @@ pub fn is_prime(modulus: &Modulus) -> bool {
     let num_rounds = IS_PRIME_NUM_ROUNDS;
     for i in 0..num_rounds {
         let a = if i==0 {2} else {random_generator.gen_range(3..value)};
+        #[cfg(feature = "verif")]
+        let a = if i==0 {a} else {3 + crate::verif_hooks::nt_draw(a - 3) % (value - 3)};
         let mut x = util::exponentiate_u64_mod(a, d, modulus);
         if x == 1 || x == value - 1 {continue;}
         let mut count = 0;
@@ -196,6 +198,8 @@ pub fn try_primitive_root(degree: u64, modulus: &Modulus, destination: &mut u64)
         attempt_counter += 1;
         // Set destination to be a random number modulo modulus.
         *destination = util::barrett_reduce_u64(random_generator.gen::<u64>(), modulus);
+        #[cfg(feature = "verif")]
+        { *destination = util::barrett_reduce_u64(crate::verif_hooks::nt_draw(*destination), modulus); }
         
         // Raise the random number to power the size of the quotient
         // to get rid of irrelevant part
